@@ -102,14 +102,21 @@ type SimWriter struct {
 	FailAt int
 	Failed bool
 	Writes int
+	// Transient: only the write call that reaches byte FailAt fails (a prefix of it reaches the disk, the rest is
+	// lost); the device accepts later calls again. Otherwise the device stays failed.
+	Transient bool
 }
 
 func NewSimWriter(failAt int) *SimWriter { return &SimWriter{FailAt: failAt} }
 
 func (w *SimWriter) Write(p []byte) (int, error) {
 	w.Writes++
-	if w.Failed {
+	if w.Failed && !w.Transient {
 		return 0, ErrSimDisk
+	}
+	if w.Failed && w.Transient {
+		w.Buf = append(w.Buf, p...)
+		return len(p), nil
 	}
 	if w.FailAt >= 0 && len(w.Buf)+len(p) > w.FailAt {
 		n := w.FailAt - len(w.Buf)
